@@ -74,14 +74,12 @@ pub fn complete(
             }
         } else if let Some((flag, value)) = arg.to_long() {
             if let Ok(flag) = flag {
+                // The parser answers to hidden aliases as well
                 let opt = current_cmd.get_arguments().find(|a| {
-                    let longs = a.get_long_and_visible_aliases();
-                    let is_find = longs.map(|v| {
-                        let mut iter = v.into_iter();
-                        let s = iter.find(|s| *s == flag);
-                        s.is_some()
-                    });
-                    is_find.unwrap_or(false)
+                    a.get_long() == Some(flag)
+                        || a.get_all_aliases()
+                            .map(|v| v.into_iter().any(|s| s == flag))
+                            .unwrap_or(false)
                 });
 
                 if let Some(opt) = opt {
